@@ -1,5 +1,5 @@
 """C13 -- a kept call's signature depends on the argument binding, not on its spelling."""
-from contracts import fun_args_ctx
+from contracts import fun_args_ctx, arg_ctx_keys
 
 ID = "C13"
 LEVEL = "proof"
@@ -7,7 +7,7 @@ EXPLANATION = (
     "get_arg_ctx and get_arg_ctx_ast are proved (loop invariant over the parameter list, all signatures/arguments) to return, per parameter in "
     "inspect.signature order, the hash of the value Python binds to it: positional if given, else keyword, else the default. The result mentions nothing "
     "else, so every spelling of one binding yields the same entries (SPELL); literals seen in source hash exactly like the run-time value (STATIC=RUNTIME, also C02); "
-    "bindings that differ at a parameter give different entries whenever dds_hash separates the two values (C05)."
+    "bindings that differ at a parameter give different entries whenever dds_hash separates the two values (C05). FunctionArgContext.as_hashable (the key of the per-evaluation analysis cache) is exactly the pair (call-site context, entries in order), so two contexts share a cache entry only if they are equal; relevant_keys passes every entry to the signature when all hashes are known and the call-site context alone otherwise."
 )
 TRUSTED = [
     "A-ENGINE: pyvc VC generator + z3/cvc5",
@@ -26,7 +26,7 @@ REPLAY = {
 
 
 def specs():
-    return [c() for c in fun_args_ctx.SPECS]
+    return [c() for c in fun_args_ctx.SPECS] + [c() for c in arg_ctx_keys.SPECS]
 
 
 def bounded(tier, seed, pr):
